@@ -28,6 +28,9 @@ pub struct CWorld {
     pub spectators: Vec<Session>,
 }
 
+/// pseudo command: what the declutter timer thread does - carry out the queued snapshots
+pub const RUN_SNAPSHOT: &str = "<run-snapshot-queue>";
+
 pub type FinalView = BTreeMap<String, (String, i32, u8)>;
 
 /// client-visible final state: live keys with the value and version get-safe reports
@@ -77,7 +80,11 @@ pub fn build(setup: &Setup) -> (CWorld, Vec<Session>) {
     assert_eq!(o.resp, "Ok");
     admin.exec(&node, "use-db t tok");
     for l in setup.init.iter() {
-        admin.exec(&node, l);
+        if l == RUN_SNAPSHOT {
+            node.run_snapshot_queue();
+        } else {
+            admin.exec(&node, l);
+        }
     }
     let mut sessions = vec![];
     for init in setup.session_init.iter() {
@@ -107,6 +114,10 @@ pub fn body(dbs: Arc<Databases>, mut sess: Session, tid: usize, program: Vec<Str
                     let mut it = rest.splitn(3, ' ');
                     let (k, ver, val) = (it.next().unwrap_or("").to_string(), it.next().and_then(|v| v.parse::<i32>().ok()).unwrap_or(-1), it.next().unwrap_or("").to_string());
                     with_db(&dbs, "t", |d| nundb::db_ops::set_key_value(k, val, ver, d, &dbs)).unwrap_or(Response::Error { msg: "no database t".into() })
+                }
+                None if line == RUN_SNAPSHOT => {
+                    nundb::disk_ops::snapshot_all_pendding_dbs(&dbs);
+                    Response::Ok {}
                 }
                 None => nundb::process_request::process_request(line, &dbs, client),
             }));
@@ -159,6 +170,11 @@ pub fn sequential_outcomes(setup: &Setup, programs: &[Vec<String>]) -> Vec<(Vec<
         let (w, mut sessions) = build(setup);
         let mut replies = BTreeMap::new();
         for (t, i) in order.iter() {
+            if programs[*t][*i] == RUN_SNAPSHOT {
+                w.node.run_snapshot_queue();
+                replies.insert((*t, *i), ("Ok".to_string(), vec![]));
+                continue;
+            }
             let o = sessions[*t].exec(&w.node, &programs[*t][*i]);
             replies.insert((*t, *i), (o.resp, o.msgs));
         }
